@@ -159,6 +159,8 @@ class _BuilderWalk:
                     counts.get(n.targets[0].id) == 1 and n.targets[0].id not in fi.params:
                 self.local_defs[n.targets[0].id] = n.value
 
+    _fork_budget = 6
+
     def run(self, internal=False):
         env = {}
         self._block(self.fi.node.body, env, [])
@@ -187,10 +189,26 @@ class _BuilderWalk:
         return T(depth).visit(copy.deepcopy(e))
 
     def _block(self, stmts, env, guards):
-        for st in stmts:
+        for i, st in enumerate(stmts):
             r = self._stmt(st, env, guards)
             if r == 'stop':
                 return 'stop'
+            if isinstance(r, tuple) and r and r[0] == 'fork':
+                # both arms of an `if` fall through with different script / source values bound: the rest of the
+                # block is read once per arm (path-sensitive), each under its own guard
+                _, (e1, g1, p1), (e2, g2, p2) = r
+                rest = stmts[i + 1:]
+                saved = self.param_of
+                self.param_of = dict(p1)
+                ra = self._block(rest, e1, g1)
+                pa = self.param_of
+                self.param_of = dict(p2)
+                rb = self._block(rest, e2, g2)
+                pb = self.param_of
+                self.param_of = {k: pa.get(k, set()) | pb.get(k, set()) for k in set(pa) | set(pb)}
+                env.clear()
+                env.update({k: v for k, v in e1.items() if k in e2 and (v is e2[k] or v == e2[k])})
+                return 'stop' if (ra == 'stop' and rb == 'stop') else None
             if isinstance(r, list):
                 guards = r
         return None
@@ -271,6 +289,10 @@ class _BuilderWalk:
                 return guards + [(t, True)]
             if r1 == 'stop' and r2 == 'stop':
                 return 'stop'
+            differ = [k for k in set(e1) | set(e2) if e1.get(k) is not e2.get(k) and e1.get(k) != e2.get(k)]
+            if differ and self._fork_budget > 0 and (k for k in differ):
+                self._fork_budget -= 1
+                return ('fork', (e1, guards + [(t, True)], pa), (e2, guards + [(t, False)], pb))
             for k in list(env):
                 if e1.get(k) is not e2.get(k) and e1.get(k) != e2.get(k):
                     env.pop(k, None)
